@@ -1,5 +1,4 @@
 #!/bin/bash
-# usage: ebp-mutants.sh name file 'python-replace-old' 'new'
 export GOFLAGS=-mod=mod GOPROXY=off GOSUMDB=off GOTOOLCHAIN=local VERIF_JOBS=4
 name=$1; file=$2; old=$3; new=$4
 rm -rf /root/work/ebp-mut; cp -r /root/work/repo-fixed /root/work/ebp-mut
